@@ -211,3 +211,36 @@ def ancestry(shape: List[int], a: int, b: int) -> int:
     if x.within(sql.Parenthesis) != any(isinstance(c, sql.Parenthesis) for c in chain):
         return 2
     return 1
+
+
+DEPTHMAX = 140
+
+
+def deep_ancestry(depth: int, mid: bool) -> int:
+    """
+    pre: 1 <= depth <= DEPTHMAX
+    pre: PART < 0 or depth // 10 == PART
+    post: _ != 2
+    """
+    # a chain of `depth` nested groups (Statement > Parenthesis > ... > Identifier innermost) around one leaf;
+    # the depth is the symbolic variable: has_ancestor / within must see EVERY ancestor, however far up
+    depth = conc(depth, DEPTHMAX, 1)
+    leaf = sql.Token(T.Name, 'x')
+    node = sql.Identifier([leaf])
+    chain = [node]
+    for _ in range(depth - 1):
+        node = sql.Parenthesis([node])
+        chain.append(node)
+    top = sql.Statement([node]) if depth > 1 else node
+    if depth > 1:
+        chain.append(top)
+    target = chain[len(chain) // 2] if mid else chain[0]
+    if not leaf.has_ancestor(target) or not leaf.has_ancestor(chain[-1]):
+        return 2
+    if leaf.within(sql.Identifier) is not True:
+        return 2
+    if depth > 1 and not leaf.within(sql.Statement):
+        return 2
+    if leaf.within(sql.Where) or target.has_ancestor(leaf):
+        return 2
+    return 1
